@@ -766,6 +766,37 @@ def source_pieces():
             raise T1bError("function %s not found in mb_mgr_job_api.h" % fn)
         if not re.search(pat, mf.group(1), re.S):
             raise T1bError("%s no longer has the modelled shape:\n%s" % (fn, mf.group(1)))
+    # the stage sequencing functions: modelled shape, and the burst twins are the same text modulo the dispatch macro
+    def body(fn):
+        mf = re.search(r"\n%s\s*\([^)]*\)\s*\{(.*?)\n\}" % fn, src_nc, re.S)
+        if not mf:
+            raise T1bError("function %s not found in mb_mgr_job_api.h" % fn)
+        return " ".join(mf.group(1).split())
+    shapes = {
+        "RESUBMIT_JOB": "while (job != NULL && job->status < IMB_STATUS_COMPLETED) { if (job->status == IMB_STATUS_COMPLETED_AUTH) "
+                        "job = SUBMIT_JOB_CIPHER(state, job); else job = SUBMIT_JOB_HASH(state, job); } return job;",
+        "submit_new_job": "if (job->cipher_mode == IMB_CIPHER_GCM) return SUBMIT_JOB_CIPHER(state, job); "
+                          "if (job->chain_order == IMB_ORDER_CIPHER_HASH) job = SUBMIT_JOB_CIPHER(state, job); "
+                          "else job = SUBMIT_JOB_HASH(state, job); job = RESUBMIT_JOB(state, job); return job;",
+        "complete_job": "uint32_t completed_jobs = 0; if (job->chain_order == IMB_ORDER_CIPHER_HASH) { "
+                        "while (job->status < IMB_STATUS_COMPLETED) { IMB_JOB *tmp = FLUSH_JOB_CIPHER(state, job); "
+                        "if (tmp == NULL) tmp = FLUSH_JOB_HASH(state, job); (void) RESUBMIT_JOB(state, tmp); completed_jobs++; } } "
+                        "else { while (job->status < IMB_STATUS_COMPLETED) { IMB_JOB *tmp = FLUSH_JOB_HASH(state, job); "
+                        "if (tmp == NULL) tmp = FLUSH_JOB_CIPHER(state, job); (void) RESUBMIT_JOB(state, tmp); completed_jobs++; } } "
+                        "return completed_jobs;",
+    }
+    twin = {"RESUBMIT_JOB": "RESUBMIT_BURST_JOB", "submit_new_job": "submit_new_burst_job", "complete_job": "complete_burst_job"}
+    ren = [("CALL_SUBMIT_CIPHER", "SUBMIT_JOB_CIPHER"), ("CALL_SUBMIT_HASH", "SUBMIT_JOB_HASH"), ("CALL_FLUSH_CIPHER", "FLUSH_JOB_CIPHER"),
+           ("CALL_FLUSH_HASH", "FLUSH_JOB_HASH"), ("RESUBMIT_BURST_JOB", "RESUBMIT_JOB")]
+    for fn, want in shapes.items():
+        got = body(fn)
+        if got != want:
+            raise T1bError("%s no longer has the shape modelled in Mgr/Dispatch.v (stage machine):\n%s" % (fn, got))
+        tw = body(twin[fn])
+        for a_, b_ in ren:
+            tw = tw.replace(a_, b_)
+        if tw != want:
+            raise T1bError("%s differs from %s by more than the dispatch macros:\n%s" % (twin[fn], fn, tw))
     return dict(expr_src=expr_src, term=term, width=w, gap=int(mg.group(1)))
 
 
@@ -836,7 +867,8 @@ def generate(results, mgr_off, srcp):
           "Definition gen_calc_cipher_tab_index (IMB_DIR_ENCRYPT IMB_DIR_DECRYPT cipher_mode key_len_in_bytes cipher_direction : N) : N :=",
           "  c_mask 32 %s." % srcp["term"],
           "",
-          "(* the dispatch sites SUBMIT_JOB_CIPHER/HASH, FLUSH_JOB_CIPHER/HASH, CALL_SUBMIT_*/CALL_FLUSH_*, set_cipher_suite_id",
+          "(* the dispatch sites SUBMIT_JOB_CIPHER/HASH, FLUSH_JOB_CIPHER/HASH, CALL_SUBMIT_*/CALL_FLUSH_*, set_cipher_suite_id and the",
+          "   stage functions RESUBMIT_JOB, submit_new_job, complete_job (+ their burst twins, equal modulo the dispatch macro)",
           "   were matched textually against the shapes modelled in Mgr/Dispatch.v (translator fails otherwise) *)",
           ""]
     L.append("(* IMB_MGR.*_ooo members in declaration order *)")
